@@ -43,7 +43,9 @@ var (
 )
 
 // constructors work on objects no other goroutine can see yet
-var skipFunc = map[string]bool{"newClient": true}
+// and the two signal accessors are atomic: a goroutine parked inside would
+// hold the signal holder and starve the simulator's own observation
+var skipFunc = map[string]bool{"newClient": true, "Online": true, "Offline": true}
 
 func fatal(format string, a ...any) {
 	fmt.Fprintf(os.Stderr, "mkoverlay: "+format+"\n", a...)
